@@ -71,8 +71,8 @@ def sqrt_bracket(x):
     return F(r, den), F(r if r * r == n else r + 1, den)
 
 
-def gen_case(rng):
-    nd = rng.choice([1, 2, 2, 3])
+def gen_case(rng, nd=None):
+    nd = nd or rng.choice([1, 2, 2, 3])
     lc = rng.random() < 0.5
     case = {"kind": "prox", "nd": nd, "k": rng.choice([1, 1, 2, 3, 5]), "nu": rng.choice([q(F(0)), q(F(1)), q(F(3, 2)), q(F(5, 2)), q(F(5)), "7/10", "9/10", "13/10"]),
             "lc": lc, "cap": rng.choice([1, 2, 3, 128]), "dtype": rng.choice(["f64", "f64", "f32"]),
@@ -137,7 +137,7 @@ def gen_case(rng):
         def row():      # noqa: F811
             t, o, m = base_row()
             sh = [F(2**20), F(-2**20), F(2**19)]
-            return [t, o, [q(F(x) + sh[i] + F(rng.randrange(16), 16)) for i, x in enumerate(m)]]
+            return [t, o, [q(F(x) + sh[i % 3] + F(rng.randrange(16), 16)) for i, x in enumerate(m)]]
 
     ops = []
     for _ in range(rng.randint(3, 12)):
@@ -552,9 +552,36 @@ def nontrivial(case):
     return sum(len(op.get("rows", [])) if op["op"] == "add" else 1 for op in case["ops"] if op["op"] in ("add", "add1")) >= 4
 
 
+def gen_highdim(rng):
+    """measure spaces of 21 .. 40 dimensions (beyond any dimension at which a search might switch strategy)"""
+    case = gen_case(rng, nd=rng.choice([21, 24, 33, 40]))
+    case["ops"] = case["ops"][:6]
+    return case
+
+
+def gen_bigbatch(rng):
+    """one add of a few thousand candidates into an EMPTY archive (every one is novel and becomes an entry, in order,
+    across several capacity doublings), followed by small adds judged against those thousands of entries"""
+    case = gen_case(rng, nd=rng.choice([1, 2]))
+    case.update(cap=rng.choice([1, 3, 128]), layout=rng.choice(["", "s"]), far=False)
+    n = rng.choice([2049, 2100, 4097])
+    tok = [10**6]
+
+    def row():
+        tok[0] += 1
+        return [tok[0], q(F(rng.randint(-6, 6), 2)), [q(F(rng.randint(-40, 40), 4)) for _ in range(case["nd"])]]
+
+    case["ops"] = [{"op": "add", "rows": [row() for _ in range(n)]}, {"op": "add1", "row": row()},
+                   {"op": "add", "rows": [row() for _ in range(3)]}]
+    return case
+
+
 def run(ctx):
     ctx.explore("histories", gen_case, lambda c: run_case(c, {"C14"}), ctx.n(400, 30000), nontrivial=nontrivial,
                 time_budget=35 if ctx.quick else 420)
+    ctx.explore("high-dimension", gen_highdim, lambda c: run_case(c, {"C14"}), ctx.n(12, 600), nontrivial=nontrivial,
+                time_budget=8 if ctx.quick else 90)
+    ctx.explore("big-batch", gen_bigbatch, lambda c: run_case(c, {"C14"}), ctx.n(2, 24), time_budget=25 if ctx.quick else 200)
 
 
 def replay(ctx, case):
